@@ -16,7 +16,7 @@ PROP = "C20"
 SITE = {"tenones": "tenones", "tenzeros": "tenzeros", "tendiag": "tendiag", "sptendiag": "sptendiag",
         "teneye": "teneye", "from_function_dense": "tensor.from_function",
         "from_function_ktensor": "ktensor.from_function", "aggregate": "sptensor.from_aggregator",
-        "sptenrand": "sptenrand", "from_function_sparse": "sptensor.from_function", "tenrand": "tenrand"}
+        "sptenrand": "sptenrand", "sptenrand_pow2": "sptenrand", "from_function_sparse": "sptensor.from_function", "tenrand": "tenrand"}
 
 
 def sparse_placeholder(S, ok_values) -> dict:
@@ -150,6 +150,16 @@ def call(op: str, a: dict) -> dict:
                 np.array_equal(np.asarray(S1.vals), np.asarray(S2.vals))
             return {"st": "ok", "obj": sparse_placeholder(S1, ok1), "values_from_function": bool(ok1),
                     "reproducible": bool(rep)}
+        if op == "sptenrand_pow2":
+            shape = tuple(2 ** int(w) for w in a["widths"])
+
+            def once2():
+                np.random.seed(a["seed"])
+                return ttb.sptenrand(shape, density=2.0 ** -int(a["dexp"]))
+            S1, S2 = once2(), once2()
+            v = np.asarray(S1.vals).reshape(-1)
+            rep = np.array_equal(np.asarray(S1.subs), np.asarray(S2.subs)) and np.array_equal(np.asarray(S1.vals), np.asarray(S2.vals))
+            return {"st": "ok", "obj": sparse_placeholder(S1, bool(np.all((v >= 0) & (v < 1)))), "reproducible": bool(rep)}
         if op == "tenrand":
             np.random.seed(a["seed"])
             T1 = ttb.tenrand(tuple(a["shape"]))
